@@ -2,9 +2,11 @@
    checkpoint set is established by correspondence / metamorphic runs; the
    theorems identify what an interpolation computes.) *)
 From Coq Require Import List Arith.
+From Coq Require Import QArith.
 From PD Require Import Base.Field Base.Matrix Base.Solve Model.Gauss Model.Prior Spec.RTS
-  Proofs.GaussProofs Proofs.FilterProofs Proofs.PriorProofs.
+  Proofs.GaussProofs Proofs.FilterProofs Proofs.PriorProofs Model.Control Proofs.ControlSim.
 Import ListNotations.
+Local Close Scope Q_scope.
 
 Section C05.
   Context {F : Type} `{FL : FieldLaws F}.
@@ -51,7 +53,54 @@ Section C05.
   Proof. exact c_marg_identity. Qed.
 End C05.
 
+(* The accepted step sequence does not depend on the requested checkpoints
+   (no clipping): for ANY solver whose step and error estimate read only a
+   "forward part" of the state (which includes the time) and whose two
+   interpolation functions leave the forward part of the state to continue from
+   unchanged -- true of the filter (posterior_t1 returned as is) and of both
+   smoothers (only backward models are rewired) -- advancing to an inserted
+   earlier checkpoint t' <= t and then to t reaches the same step size proposal,
+   forward state, controller memory and error state as advancing to t directly.
+   Hence step counts, per-step output scales and all later steps coincide.
+   (Conditional on the fuel sufficing; any three fuels.) *)
+Section C05_machine.
+  Local Open Scope Q_scope.
+  Variable S E X : Type.
+  Variable time : S -> Q.
+  Variable nsteps : S -> nat.
+  Variable sstep : S -> Q -> S.
+  Variable est : E -> S -> S -> Q -> Q * E.
+  Variable interp interp_at : Q -> S -> S -> S * (S * S).
+  Variable capply : Q -> Q -> Q -> Q * Q.
+  Variable eps acc_init : Q.
+  Variable fwd : S -> X.
+  Variable ftime : X -> Q.
+  Variable fstep : X -> Q -> X.
+  Variable fest : E -> X -> X -> Q -> Q * E.
+  Hypothesis Hf_time : forall s, time s = ftime (fwd s).
+  Hypothesis Hf_step : forall s dt, fwd (sstep s dt) = fstep (fwd s) dt.
+  Hypothesis Hf_est : forall e a b dt, est e a b dt = fest e (fwd a) (fwd b) dt.
+  Hypothesis Hf_interp : forall t a b, fwd (fst (snd (interp t a b))) = fwd b.
+  Hypothesis Hf_interp_at : forall t a b, fwd (fst (snd (interp_at t a b))) = fwd b.
+
+  Theorem C05_steps_independent_of_inserted_checkpoint :
+    forall fr t' t, t' <= t ->
+    forall fuel1 fuel2 fuel3 (s sb s1 s2 s3 : TS S E) so1 so2 so3,
+      absT S E X fwd s = absT S E X fwd sb ->
+      advance S E time nsteps sstep est interp interp_at capply false eps acc_init fuel1 fr t' s = Some (so1, s1) ->
+      advance S E time nsteps sstep est interp interp_at capply false eps acc_init fuel2 fr t s1 = Some (so2, s2) ->
+      advance S E time nsteps sstep est interp interp_at capply false eps acc_init fuel3 fr t sb = Some (so3, s3) ->
+      absT S E X fwd s2 = absT S E X fwd s3.
+  Proof.
+    intros fr t' t Hle fuel1 fuel2 fuel3 s sb s1 s2 s3 so1 so2 so3 Habs H1 H2 H3.
+    exact (checkpoint_insertion S E X time nsteps sstep est interp interp_at capply eps acc_init
+             fwd ftime fstep fest Hf_time Hf_step Hf_est Hf_interp Hf_interp_at fr t' t Hle
+             fuel1 fuel2 fuel3 s sb s1 s2 s3 so1 so2 so3 Habs H1 H2 H3).
+  Qed.
+End C05_machine.
+
 Print Assumptions C05_filter_interpolation_is_prediction.
+Print Assumptions C05_steps_independent_of_inserted_checkpoint.
 Print Assumptions C05_smoother_interpolation_is_rts_conditioning.
 Print Assumptions C05_rewired_backward_models_compose.
 Print Assumptions C05_at_checkpoint_identity_model.
